@@ -182,6 +182,33 @@ func genesisListSizes(state []byte) map[string]int {
 	return out
 }
 
+var genesisPairs []cov.Pair
+
+// pairsDiffer: for every pair of same-typed GenesisState fields, whether the exported values differ
+func pairsDiffer(state []byte) map[string]bool {
+	out := map[string]bool{}
+	var m map[string]json.RawMessage
+	if json.Unmarshal(state, &m) != nil {
+		return out
+	}
+	canon := func(raw json.RawMessage) string {
+		var x interface{}
+		if len(raw) == 0 || json.Unmarshal(raw, &x) != nil {
+			return "null"
+		}
+		bz, _ := json.Marshal(x)
+		return string(bz)
+	}
+	for _, p := range genesisPairs {
+		var g map[string]json.RawMessage
+		if json.Unmarshal(m[p.Key], &g) != nil {
+			continue
+		}
+		out[p.Key+"."+p.A+"~"+p.B] = canon(g[p.A]) != canon(g[p.B])
+	}
+	return out
+}
+
 // permuteGenesis permutes every top-level array of objects of every module's genesis state (arrays of
 // scalars and arrays nested inside records - coins, permission lists, token lists - are values, not record
 // lists, and keep their order). JSON object (map) order is already arbitrary for the Go decoder.
@@ -265,6 +292,7 @@ type Case struct {
 	Deadlines    []time.Time `json:"-"`
 	Orders       []OrderRun `json:"permuted_genesis_imports"`
 	ListSizes    map[string]int `json:"genesis_list_sizes"`
+	PairsDiffer  map[string]bool `json:"same_type_field_pairs_hold_different_values"`
 	Snap         [2]Snap    `json:"snapshots"`
 }
 
@@ -427,6 +455,7 @@ func runCase(idx int, seed uint64, f Features) Case {
 		return cs
 	}
 	cs.ListSizes = genesisListSizes(state)
+	cs.PairsDiffer = pairsDiffer(state)
 	_, p1 := newChainFromExport(c, state)
 	patched := state
 	if strings.Contains(p1, "invalid genesis version") {
@@ -565,10 +594,17 @@ func main() {
 	if err != nil {
 		panic(err)
 	}
+	if genesisPairs, err = cov.GenesisPairs(repo); err != nil {
+		panic(err)
+	}
+
 	seed := hx.Seed()
 	r := hx.NewRng(seed)
 	var cases []Case
 	dist := hx.Counter{}
+	for _, p := range genesisPairs {
+		dist["pair:"+p.Key+"."+p.A+"~"+p.B] = 0
+	}
 	for i := 0; i < *n; i++ {
 		f := RandomFeatures(r)
 		if i == 0 {
@@ -577,6 +613,7 @@ func main() {
 		if i == 1 { // second scripted history: everything, plus an upgrade that executes before the export
 			f = AllFeatures()
 			f.UpgradeExecuted, f.Upgrade, f.ExtraBlocks = true, false, 3
+			f.W.LongHistory, f.W.LongGap = true, 31190400 // and a year of chain time: the two supply snapshots differ
 		}
 		cs := runCase(i, seed*1000+uint64(i), f)
 		cases = append(cases, cs)
@@ -593,6 +630,11 @@ func main() {
 		}
 		for _, d := range cs.Diffs {
 			dist.Inc("diff:" + d.Kind + ":" + d.Store + "/" + d.Class)
+		}
+		for k, d := range cs.PairsDiffer {
+			if d {
+				dist.Inc("pair:" + k)
+			}
 		}
 		for k, n := range cs.ListSizes {
 			if n > dist["listmax:"+k] {
